@@ -355,7 +355,7 @@ PROPS = {
                    "unreachable), bad_header_ends_session, frames_roundtrip / no_loss_no_reread are Lean theorems over all byte "
                    "streams and all chunkings, by induction and a refinement invariant. The model (ReadBuffer, MbapParser, "
                    "FramedReader loop) is hand-written and tied to the code by running the production FramedReader on the same "
-                   "chunk schedules (exhaustive compositions of short streams, all header length fields, buffer-boundary streams, random).",
+                   "chunk schedules (exhaustive compositions of short streams, all header length fields, buffer-boundary streams, random). Cancel safety: Cancel.cancel_safe_mbap / cancel_safe_rtu / session_cancel_safe - dropping the future of next_frame at any blocked point (select! with the command queue) leaves rb.normalize behind and changes nothing that is delivered afterwards, for every delivery schedule.",
         level_note="Trusted: Lean kernel (axioms propext, Classical.choice, Quot.sound), translator for the frame constants, "
                    "the hand-written model of buffer.rs/tcp/frame.rs/FramedReader (checked only by differential runs), the harness transport. "
                    "Per-connection statement: the client's reader persisting across reconnects is finding F14 (fixed).",
@@ -497,7 +497,7 @@ PROPS = {
                    "session_replies) and composed with the framing theorems of C05/C06; corollaries state each clause of the property (unknown "
                    "function -> 01, invalid -> 03, unconfigured/empty -> silence, bit/register payload layout, first exception in ascending order, "
                    "write echo, reply PDU <= 253 bytes); table theorems re-prove function codes, exception codes and limits against tables "
-                   "regenerated from the Rust source on every run. Tie: production SessionTask::run over an in-memory transport with instrumented handlers.",
+                   "regenerated from the Rust source on every run. Tie: production SessionTask::run over an in-memory transport with instrumented handlers. Failing transport write (fault model runSessionW, every fault position): write_failure_wire(_spec) - the wire carries exactly the first n framed replies of the reference server; write_failure_session - calls and states are those of the reference run over the handled prefix (the request whose reply was lost was executed once), the session ends with the write error iff the fault is reached.",
         level_note="Trusted: Lean kernel; translator; hand-written model of server/task.rs, server/request.rs, common/serialize.rs (tied by differential "
                    "sessions, exhaustive on the listed sub-domains, sampled elsewhere); harness. Reading: redundant byte-count field not demanded; "
                    "on RTU an unknown function cannot be framed (C06).",
@@ -517,7 +517,7 @@ PROPS = {
                    "write_once_broadcast (exactly one write call per target with exactly count items (start+i, v_i)), reads_ascending_prefix, "
                    "invalid_no_effect (malformed, unknown function, wrong unit, denied => no handler call, states unchanged), for all frames and "
                    "configurations. Tie: the ordered call log (method, unit, arguments incl. the collected iterator items) and the final handler "
-                   "states of the production session are compared with the model.",
+                   "states of the production session are compared with the model. With a failing transport write the call log is a prefix of the fault-free one (write_failure_prefix); commands that cancel a pending read do not change what is decoded (Cancel.session_cancel_safe).",
         level_note="Trusted as C01. Frames rejected by the framer (bad CRC / bad header) never reach handle_frame: C05/C06.",
         technique="Lean 4 proof over the call log of the handle_frame model + differential call-log comparison",
         classify=classify_srv, nontrivial=nontrivial_srv, finding_key=no_key, rule="cases = corpus (witnesses of repaired defects first) + exhaustive sub-domains + seeded sessions of 1..12 (quick) / 1..40 (thorough) requests mixing valid (3/4), malformed (grammar-aware mutations), exception-raising and wrong-unit requests over random unit maps (0..4 units, per-address read/write exceptions), delivered frame-by-frame or under random chunkings, with commands injected; distinct = distinct case line; non-trivial = the session produced a reply or an application call",
@@ -554,7 +554,7 @@ PROPS = {
                    "configured unit in ascending order, results ignored, no reply), broadcast_never_answered (not even exceptions, also when "
                    "malformed or denied), broadcast_read_ignored, unit0_ordinary_on_tcp. Tie: production RTU sessions over the in-memory transport "
                    "with unit maps of 0..4 units and random destinations incl. 0 and unconfigured ids; silence is visible as absent bytes before the "
-                   "reply of a later request.",
+                   "reply of a later request. With a failing transport write: broadcast_survives_write_fault, foreign_frames_invisible_to_fault.",
         level_note="Trusted as C01. Finding F1 (malformed frames to unconfigured units were answered) is fixed in the tree. With an authorization handler (TLS sessions only) the silence theorem is silent_unless_addressed_or_denied: a DENIED request to an unconfigured unit id is answered with exception 01 (denied_answered_even_if_unconfigured), because C08 prescribes the deny answer for all unit ids and places the question before unit dispatch; that single point is read as governed by C08, not as a C17 violation (DESIGN.md).",
         technique="Lean 4 proof (RTU instance of the handle_frame model) + differential RTU sessions",
         classify=classify_srv, nontrivial=nontrivial_srv, finding_key=no_key, rule="cases = corpus (witnesses of repaired defects first) + exhaustive sub-domains + seeded sessions of 1..12 (quick) / 1..40 (thorough) requests mixing valid (3/4), malformed (grammar-aware mutations), exception-raising and wrong-unit requests over random unit maps (0..4 units, per-address read/write exceptions), delivered frame-by-frame or under random chunkings, with commands injected; distinct = distinct case line; non-trivial = the session produced a reply or an application call",
@@ -612,7 +612,7 @@ PROPS = {
                    "Display paths, tokio, OS): the production server session, framers and client loop run under catch_unwind with overflow checks "
                    "and debug assertions on, cycling through all 36 decode levels with a formatting tracing subscriber installed, on grammar-aware "
                    "mutations of valid traffic and raw random bytes, each followed by a shutdown command that must still be honoured; any 'panic' or "
-                   "'hung' outcome or disagreement with the model's outcome is a violation.",
+                   "'hung' outcome or disagreement with the model's outcome is a violation. A failing transport write ends the session with the transport's error exactly when the fault is reached (write_failure_ends_session); oracle cases: a flooding peer cannot starve a queued Shutdown command.",
         level_note="Partial by nature: absence of panics in code that is not modelled (tracing/Display formatting, tokio, the OS, the TLS stack) "
                    "rests on the differential runs, which are tests. Finding F13 (u16 overflow panic in AddressIterator for ranges ending at 65535) "
                    "was found by these runs and is fixed.",
@@ -640,7 +640,7 @@ PROPS = {
                    "ChangeDecoding command inserted at any position - also in the middle of a partially received frame - changes nothing; no buffered "
                    "byte is lost). Tie: every case of the C01-C06 generators is replayed at the lowest level, the highest level and a random one, and "
                    "with level changes injected at random positions of the script, with a formatting tracing subscriber installed; all variants must "
-                   "equal the (level-independent) model output.",
+                   "equal the (level-independent) model output. Cancel.session_cancel_safe: the finer session model in which every ChangeDecoding command cancels the pending transport read equals runSession for every script (so 'commands are invisible to the reader' is proved, not assumed).",
         level_note="Server side: immediate because the session model consults the level only for log lines - that this mirrors the code (tracing "
                    "calls guarded by decode.*.enabled()) is what the paired runs check. Client side (Props/C20Client): decode_noninterference_client "
                    "and level_change_content_irrelevant hold for every script; transparency of an INSERTED set-decode command is proved from quiescent "
